@@ -721,7 +721,7 @@ func (sp *Spec) loadSpecFile(path, prefix, pkgPath, pkgName string, assumed bool
 				cur.Virtual = true
 				cur.Trusted = true
 			case "callsite":
-				m := regexp.MustCompile(`^([\w./$*()]+)#(\d+)\s*:\s*(\w+)\((.*)\)$`).FindStringSubmatch(it.text)
+				m := regexp.MustCompile(`^([\w./$*()-]+)#(\d+)\s*:\s*(\w+)\((.*)\)$`).FindStringSubmatch(it.text)
 				if m == nil {
 					return fail(fmt.Errorf("callsite callee#k: vfunc(args)"))
 				}
